@@ -4,6 +4,7 @@ import (
 	"context"
 	"errors"
 	"fmt"
+	"runtime"
 	"sort"
 	"strings"
 	"sync"
@@ -121,7 +122,8 @@ type Sample struct {
 	Crashed  bool
 	CrashMsg string
 	Class    string
-	Events   []Event
+	Events   []Event // as compared with the model (canonically sorted for parallel graphs)
+	Raw      []Event // in order of occurrence
 	NumNodes int
 	Heap     []int
 	Reg      []int
@@ -164,14 +166,28 @@ type Exec struct {
 	Ops       []Op
 	Samples   []Sample
 	InPass    bool
+	Par       int // 0 = serial deterministic graph; otherwise the graph's parallelism
 	// hooks for oracles
 	OnEvent  func(Event)
 	OnAction func(Action)
 }
 
+// NewExecPar returns an executor whose graph may be stabilized in parallel (the library refuses
+// ParallelStabilize on a deterministic graph, so update handlers and deferred writes run in
+// map order there: their events are compared as multisets).
+func NewExecPar(maxHeight, parallelism int) *Exec {
+	e := newExec(maxHeight, incr.New(incr.OptGraphMaxHeight(maxHeight), incr.OptGraphParallelism(parallelism)))
+	e.Par = parallelism
+	return e
+}
+
 func NewExec(maxHeight int, opts ...incr.GraphOption) *Exec {
 	all := append([]incr.GraphOption{incr.OptGraphDeterministic(true), incr.OptGraphMaxHeight(maxHeight)}, opts...)
-	e := &Exec{G: incr.New(all...), MaxHeight: maxHeight, Obs: map[int]*ORef{}, byIdent: map[incr.Identifier]int{}, byPtr: map[*incr.Node]int{}}
+	return newExec(maxHeight, incr.New(all...))
+}
+
+func newExec(maxHeight int, g *incr.Graph) *Exec {
+	e := &Exec{G: g, MaxHeight: maxHeight, Obs: map[int]*ORef{}, byIdent: map[incr.Identifier]int{}, byPtr: map[*incr.Node]int{}}
 	e.G.OnStabilizationStart(func(context.Context) { e.emit(Event{K: "EvPassStart"}) })
 	e.G.OnStabilizationEnd(func(_ context.Context, _ time.Time, err error) {
 		class, _, _ := Classify(err)
@@ -182,8 +198,8 @@ func NewExec(maxHeight int, opts ...incr.GraphOption) *Exec {
 
 func (e *Exec) emit(ev Event) {
 	e.mu.Lock()
+	defer e.mu.Unlock()
 	e.events = append(e.events, ev)
-	e.mu.Unlock()
 	if e.OnEvent != nil {
 		e.OnEvent(ev)
 	}
@@ -218,6 +234,7 @@ func Classify(err error) (class string, crashed bool, msg string) {
 }
 
 func (e *Exec) register(kind string, inc incr.Incr[int], inode incr.INode, scope, gen int, decl []int) *NRef {
+	e.mu.Lock()
 	id := e.Next
 	e.Next++
 	ref := &NRef{ID: id, Kind: kind, Inc: inc, INode: inode, Scope: scope, Gen: gen, Decl: append([]int(nil), decl...)}
@@ -231,6 +248,7 @@ func (e *Exec) register(kind string, inc incr.Incr[int], inode incr.INode, scope
 		e.Nodes[old].Recycled = true
 	}
 	e.byPtr[n] = id
+	e.mu.Unlock()
 	n.OnUpdate(func(context.Context) { e.emit(Event{K: "EvUpd", N: id}) })
 	n.OnError(func(context.Context, error) { e.emit(Event{K: "EvErrH", N: id}) })
 	n.OnBecameNecessary(func() { e.emit(Event{K: "EvNec", N: id}) })
@@ -241,9 +259,17 @@ func (e *Exec) register(kind string, inc incr.Incr[int], inode incr.INode, scope
 
 // invoke performs the plan's actions for (node, which); the returned error / panic is the fault.
 func (e *Exec) invoke(node int, which string) error {
+	if e.Par > 1 {
+		// perturb the schedule: workers of one height block really overlap
+		for i := 0; i < (node*7+len(which))%4; i++ {
+			runtime.Gosched()
+		}
+	}
 	for _, a := range e.plan[fmt.Sprintf("%d/%s", node, which)] {
 		if e.OnAction != nil {
+			e.mu.Lock()
 			e.OnAction(a)
+			e.mu.Unlock()
 		}
 		switch a.Kind {
 		case "ASet":
@@ -486,6 +512,15 @@ func (e *Exec) Do(op Op) (out Sample) {
 			e.InPass = true
 			err = e.G.Stabilize(context.Background())
 			e.InPass = false
+		case "ParStabilize":
+			e.plan = map[string][]Action{}
+			for _, a := range op.Plan {
+				key := fmt.Sprintf("%d/%s", a.Node, a.Which)
+				e.plan[key] = append(e.plan[key], a)
+			}
+			e.InPass = true
+			err = e.G.ParallelStabilize(context.Background())
+			e.InPass = false
 		case "StabilizeCancelled":
 			ctx, cancel := context.WithCancel(context.Background())
 			cancel()
@@ -503,6 +538,12 @@ func (e *Exec) Do(op Op) (out Sample) {
 		out.Class = "XPanic"
 	}
 	out.Events = e.events
+	out.Raw = e.events
+	if e.Par > 0 {
+		out.Events = append([]Event(nil), e.events...)
+		// canonical order: the replay compares event multisets for parallel graphs
+		sort.SliceStable(out.Events, func(i, j int) bool { return lexLess(out.Events[i].Code(), out.Events[j].Code()) })
+	}
 	e.sample(&out)
 	e.Ops = append(e.Ops, op)
 	e.Samples = append(e.Samples, out)
@@ -554,7 +595,7 @@ func (e *Exec) CoqCase() string {
 	for i := range e.Ops {
 		steps[i] = fmt.Sprintf("(%s, %s)", e.Ops[i].Coq(), e.Samples[i].Coq())
 	}
-	return fmt.Sprintf("(%d%%nat, [%s])", e.MaxHeight, strings.Join(steps, ";\n  "))
+	return fmt.Sprintf("(%d%%nat, %s, [%s])", e.MaxHeight, hx.Bool(e.Par > 0), strings.Join(steps, ";\n  "))
 }
 
 func (e *Exec) OpStrings() []string {
@@ -569,4 +610,50 @@ func (e *Exec) OpStrings() []string {
 func (e *Exec) Registered(id int) bool {
 	ref := e.Nodes[id]
 	return ref != nil && !ref.Recycled && e.G.Has(ref.INode)
+}
+
+// Code is the sort key of an event; it mirrors EngineRun.ev_code.
+func (e Event) Code() []int {
+	b2i := func(b bool) int {
+		if b {
+			return 1
+		}
+		return 0
+	}
+	switch e.K {
+	case "EvInvoked":
+		return append([]int{1, e.N, e.R}, e.Args...)
+	case "EvFault":
+		return []int{2, e.N, b2i(e.W == "WCut"), b2i(e.FK == "FPanic")}
+	case "EvCutoff":
+		return []int{3, e.N, e.Old, e.New, b2i(e.Verdict)}
+	case "EvBindFn":
+		return []int{4, e.N, e.R, e.Root + 1}
+	case "EvNec":
+		return []int{5, e.N}
+	case "EvUnnec":
+		return []int{6, e.N}
+	case "EvInval":
+		return []int{7, e.N}
+	case "EvUpd":
+		return []int{8, e.N}
+	case "EvObsUpd":
+		return []int{9, e.N, e.R}
+	case "EvErrH":
+		return []int{10, e.N}
+	case "EvPassStart":
+		return []int{11}
+	default:
+		classes := map[string]int{"XOk": 0, "XCycle": 1, "XLimit": 2, "XUser": 3, "XPanic": 4, "XCancelled": 5, "XAlready": 6, "XNil": 7}
+		return []int{12, classes[e.Class]}
+	}
+}
+
+func lexLess(a, b []int) bool {
+	for i := 0; i < len(a) && i < len(b); i++ {
+		if a[i] != b[i] {
+			return a[i] < b[i]
+		}
+	}
+	return len(a) < len(b)
 }
